@@ -359,6 +359,35 @@ def run(F, R, tier):
             r6.require(has_key, (fn, "key"), "%s: the verifying key does not derive from the public_key parameter" % L.short(fn))
             msg_args = [p for p in per if any(o[:3] == ("param", "input", "signing_input") for o in p)]
             r6.require(all(p == {("param", "input", "signing_input")} for p in msg_args), (fn, "message-pure"), "%s: the message operand mixes other sources: %s" % (L.short(fn), msg_args))
+        # by abstract evaluation: on every accepting path the crypto verify ✓ got exactly input.signing_input as message and a
+        # signature converted from the *whole* input.decoded_signature (conversions only — no slicing, indexing or truncation)
+        tabv = SR.Table(F, fn, rule=r6, max_paths=6000)
+        INP = SR.param("input")
+        SIG, MSG = ("field", INP, "decoded_signature"), ("field", INP, "signing_input")
+        CONV = re.compile(r"(try_from|from_slice|from_bytes|from|into|try_into|normalize_s|as_ref|as_slice|deref|borrow|clone|to_vec|to_bytes|unwrap_or)$")
+
+        def pure(t_, root):
+            if t_ == root:
+                return True
+            if isinstance(t_, tuple) and t_[:1] == ("payload",):
+                return pure(t_[1], root)
+            if isinstance(t_, tuple) and t_[:1] == ("call",) and CONV.search(re.sub(r"<[^<>]*>", "", t_[1])):
+                return any(pure(a_, root) for a_ in t_[2]) and not any(SR.derives(a_, root) and not pure(a_, root) for a_ in t_[2])
+            return False
+        nok = 0
+        for q in tabv.ok():
+            nok += 1
+            cv = [e for e in q.events if e.kind == "call" and cpat.search(e.fn or "") and q.succeeded(e) is True]
+            if not r6.require(len(cv) >= 1, (fn, "missing-before-success", "crypto verify"), "%s: an accepting path has no successful crypto verify" % L.short(fn)):
+                continue
+            e = cv[-1]
+            ats = [sym.term(a_) for a_ in e.args]
+            r6.require(any(a_ == MSG for a_ in ats), (fn, "message-pure"), "%s: the verified message is not exactly input.signing_input: %s" % (L.short(fn), [sym.fmt(a_)[:60] for a_ in ats]))
+            sig_args = [a_ for a_ in ats if SR.derives(a_, SIG)]
+            r6.require(len(sig_args) == 1 and pure(sig_args[0], SIG), (fn, "signature-whole"),
+                       "%s: the signature verified is not a conversion of the whole input.decoded_signature (it is sliced, truncated or otherwise reduced): %s" % (L.short(fn), [sym.fmt(a_)[:120] for a_ in sig_args]))
+            r6.require(any(SR.derives(a_, SR.param("public_key")) for a_ in ats), (fn, "key"), "%s: the verifying key does not derive from the public_key parameter" % L.short(fn))
+        r6.site("%s: %d accepting path(s): crypto verify(key ← public_key, msg = input.signing_input, sig = conv(input.decoded_signature)) ✓" % (L.short(fn), nok))
         # key type / curve rejections precede
         tree, infos = L.exit_infos(h)
         for e in infos:
